@@ -93,7 +93,7 @@ def canary_rewrite(text):
     return re.sub(r'(\n\s*ensures\b)', r'\1 false,', text)
 
 
-def verus_cmd(scratch, extra=()):
+def verus_cmd(scratch, extra=(), threads=16):
     ext = []
     for line in open(os.path.join(CACHE, 'verus-target', 'externs.txt')):
         line = line.strip()
@@ -113,13 +113,13 @@ def verus_cmd(scratch, extra=()):
         cmd += ['--cfg', 'feature="%s"' % f]
     cmd += ['-L', 'dependency=' + os.path.join(CACHE, 'verus-target', 'debug', 'deps')] + ext
     cmd += ['--no-trait-conflicts', '--no-lifetime', '--output-json', '--time-expanded', '--error-format=json',
-            '--multiple-errors', '20', '--num-threads', '16']
+            '--multiple-errors', '20', '--num-threads', str(threads)]
     cmd += list(extra)
     return cmd
 
 
-def run_verus(scratch, extra=(), timeout=1500):
-    cmd = verus_cmd(scratch, extra)
+def run_verus(scratch, extra=(), timeout=1500, threads=16):
+    cmd = verus_cmd(scratch, extra, threads)
     t0 = time.time()
     p = subprocess.run(cmd, capture_output=True, text=True, timeout=timeout, cwd=scratch)
     wall = time.time() - t0
